@@ -111,6 +111,7 @@ def _worker(args):
                 ch = _PrefixChoices(prefix, seed)
                 t0 = time.perf_counter()
                 res = mod.run_one(ch, cfg)
+                _check_alignment(mod, ch, prefix, idx)
                 res["choices"] = ch.record
                 res["labels"] = ch.labels
                 _fold(agg, res, ("enum", idx), time.perf_counter() - t0)
@@ -125,6 +126,19 @@ def _worker(args):
     agg["states"] = sorted(agg["states"])
     agg["scheds"] = sorted(agg["scheds"])
     return agg
+
+
+def _check_alignment(mod, ch, prefix, idx):
+    """An enumerated prefix means what the check says only if its i-th value is consumed by the draw
+    site it was written for (a site that does not draw shifts everything after it)."""
+    exp = getattr(mod, "ENUM_LABELS", None)
+    if not exp:
+        return
+    for j, e in enumerate(exp[:len(prefix)]):
+        lab = ch.labels[j] if j < len(ch.labels) else None
+        if not (lab == e or (isinstance(e, tuple) and lab in e)):
+            raise HarnessError("enumerated case %d of %s misaligned: value %d consumed by %r, written "
+                               "for %r (labels %s)" % (idx, mod.PROPERTY, j, lab, e, ch.labels[:len(prefix)]))
 
 
 class _PrefixChoices(Choices):
